@@ -14,21 +14,25 @@ inductive SItem
   | port (p : PDecl)
   | wire (w : FWire)
   | inst (i : NInst)
+  | asg (l r : XAtom)
 
 def SItem.toItem : SItem → Item
   | .port p => p.item
   | .wire w => w.item
   | .inst i => i.item
+  | .asg l r => .assign l r
 
 def SItem.attrs : SItem → Attrs
   | .port p => p.attrs
   | .wire w => w.attrs
   | .inst i => i.attrs
+  | .asg _ _ => []
 
 def SItem.core : SItem → List String
   | .port p => portCore p.dir p.rng p.name
   | .wire w => w.ty :: (rangeToks w.rng ++ [nameT w.name, ";"])
   | .inst i => instCore i.mod i.name i.params i.conns
+  | .asg l r => "assign" :: (atomToks l ++ "=" :: (atomToks r ++ [";"]))
 
 def SItem.toks (it : SItem) : List String := starToks it.attrs ++ it.core
 
@@ -36,6 +40,7 @@ def SItem.ok : SItem → Bool
   | .port p => portOK p.dir p.rng p.name && attrsOK p.attrs
   | .wire w => wireTypes.contains w.ty && rangeOK w.rng && nameTokB (nameT w.name) w.name && attrsOK w.attrs
   | .inst i => instOK i.mod i.name i.params i.conns && attrsOK i.attrs
+  | .asg l r => atomOK l && atomOK r
 
 theorem bodyGo_end (f : Nat) (rest : Toks) (pend : Attrs) (acc : List Item) :
     bodyGo (f + 1) ("endmodule" :: rest) pend acc = .ok (acc, rest) := by
@@ -108,6 +113,23 @@ theorem bodyGo_inst (f : Nat) (i : NInst) (pend : Attrs) (tail : Toks) (acc : Li
     r "reg" (by decide), r "tri0" (by decide), r "tri1" (by decide), r "assign" (by decide), r "defparam" (by decide),
     Bool.or_self, Bool.false_eq_true, if_false, hm.valid, if_true, hi]
 
+/-- `assign l = r ;` -/
+theorem bodyGo_asg (f : Nat) (l r : XAtom) (tail : Toks) (acc : List Item) (hl : atomOK l = true) (hr : atomOK r = true) :
+    bodyGo (f + 1) ("assign" :: (atomToks l ++ "=" :: (atomToks r ++ [";"])) ++ tail) [] acc =
+      bodyGo f tail [] (acc ++ [.assign l r]) := by
+  have h1 := atom_toks l ("=" :: (atomToks r ++ ";" :: tail)) hl (by intro r' e; simp at e)
+  have h2 := atom_toks r (";" :: tail) hr (by intro r' e; simp at e)
+  conv => lhs; unfold bodyGo
+  have e1 : ("assign" == "endmodule") = false := by decide
+  have e2 : dirOf "assign" = none := by decide
+  have e3 : ("assign" == "wire") = false := by decide
+  have e4 : ("assign" == "reg") = false := by decide
+  have e5 : ("assign" == "tri0") = false := by decide
+  have e6 : ("assign" == "tri1") = false := by decide
+  simp only [List.cons_append, List.append_assoc, List.nil_append, peek, next, bind, Except.bind, e1, e2, e3, e4, e5, e6,
+    Option.isSome_none, Bool.or_self, Bool.false_eq_true, if_false, beq_self_eq_true, if_true, h1, expect, h2, pure,
+    Except.pure]
+
 /-- one item of the body, attributes included: one or two turns of the loop -/
 theorem bodyGo_item (f : Nat) (it : SItem) (tail : Toks) (acc : List Item) (h : it.ok = true) :
     bodyGo (f + 2) (it.toks ++ tail) [] acc = bodyGo (if it.attrs = [] then f + 1 else f) tail [] (acc ++ [it.toItem]) := by
@@ -130,6 +152,10 @@ theorem bodyGo_item (f : Nat) (it : SItem) (tail : Toks) (acc : List Item) (h : 
       simp only [SItem.attrs] at ha
       rw [SItem.core, bodyGo_inst (f + 1) i [] tail acc h.1]
       simp [SItem.toItem, NInst.item, ha]
+    | asg l r =>
+      simp only [SItem.ok, Bool.and_eq_true] at h
+      rw [SItem.core, bodyGo_asg (f + 1) l r tail acc h.1 h.2]
+      simp [SItem.toItem]
   · simp only [ha, if_false, List.append_assoc]
     cases it with
     | port p =>
@@ -147,6 +173,7 @@ theorem bodyGo_item (f : Nat) (it : SItem) (tail : Toks) (acc : List Item) (h : 
       simp only [SItem.attrs] at ha ⊢
       rw [bodyGo_star (f + 1) i.attrs _ acc ha h.2, SItem.core, bodyGo_inst f i i.attrs tail acc h.1]
       simp [SItem.toItem, NInst.item]
+    | asg l r => exact absurd rfl ha
 
 theorem bodyGo_items : ∀ (items : List SItem) (acc : List Item) (f : Nat) (rest : Toks),
     2 * items.length + 1 ≤ f → (∀ it ∈ items, it.ok = true) →
@@ -253,6 +280,7 @@ theorem moduleP_toks (attrs pend : Attrs) (name : String) (ports : List String) 
             | port p => simp [SItem.core, portCore]
             | wire w => simp [SItem.core]
             | inst i => simp [SItem.core, instCore]; omega
+            | asg l r => simp [SItem.core]; omega
           simp only [List.length_append]; omega
         simp only [List.flatMap_cons, List.length_append, List.length_cons]; omega
     have := this items h4
